@@ -396,6 +396,10 @@ class Model(Object):
         new._compartments = dict(self._compartments)
         new.notes = deepcopy(self.notes)
         new.annotation = deepcopy(self.annotation)
+        # it doesn't make sense to retain the context of a copied model so
+        # assign a new empty context (before anything is linked below, which
+        # would otherwise record undo operations in the original's context)
+        new._contexts = []
 
         new.metabolites = DictList()
         do_not_copy_by_ref = {"_reaction", "_model"}
@@ -485,10 +489,6 @@ class Model(Object):
             # Cplex has an issue with deep copies
         except Exception:  # pragma: no cover
             new._solver = copy(self.solver)  # pragma: no cover
-
-        # it doesn't make sense to retain the context of a copied model so
-        # assign a new empty context
-        new._contexts = []
 
         return new
 
